@@ -43,7 +43,7 @@ pub enum P {
     Select(S, S),
     /// async: spawn(child: req a -> event); jh.await; event(mark)
     SpawnJoin(S, S),
-    /// async: req a -> event; then the task spawns a second task which emits mark m
+    /// async: req a; then the task spawns a second task which notifies the shell (site m, arg = value)
     SpawnAfter(S, S),
     /// async: events m0,m1 ; req a ; events m2,m3   (mark site, request site)
     Burst(S, S),
@@ -164,7 +164,7 @@ impl P {
             match p {
                 P::Event(_) | P::SelfWake(..) => {}
                 P::Trigger(..) => {}
-                P::SpawnJoin(a, _) | P::SpawnAfter(a, _) | P::Burst(_, a) | P::JoinTwice(a, _) => a.label = label,
+                P::SpawnJoin(a, _) | P::Burst(_, a) | P::JoinTwice(a, _) => a.label = label,
                 P::AbortChild(a, b, _) => {
                     a.label = label;
                     b.label = label;
